@@ -19,7 +19,7 @@ RULE = (
     "warm-up only, posterior only, single cell, sparse, dense, 3 codes, 1-3 kernels (some error free), "
     "1-3 chains, random schedules with thinning; per run: get_error_log(False/True), Summary.error_summary, "
     "error_df(per_chain True/False), sample_info, pickle save/load, ArviZ conversion (with/without warm-up). "
-    "Also: negative error codes (-1 in the error books); two kernel classes with distinct error books; results read after every driven epoch before further epochs are appended. non-trivial = table with errors in both phases and >= 2 codes; distinct by (schedule, tables)"
+    "Also: negative error codes (-1 in the error books); two kernel classes with distinct error books; results read after every driven epoch before further epochs are appended. Round 5: half of the runs with minimised transition infos. non-trivial = table with errors in both phases and >= 2 codes; distinct by (schedule, tables)"
 )
 REQUIRED = ["error_log_matches_table", "posterior_error_log_matches_table", "summary_counts",
             "summary_messages", "error_df_per_chain", "error_df_aggregated", "sample_info",
